@@ -183,6 +183,7 @@ class Interp:
         self.native_ok = set()  # (relfile, qualname) allowed to run natively (documented)
         self.steps = 0
         self.max_steps = 5_000_000
+        self.module_override = {}   # module name -> stand-in object used by `import` statements inside interpreted code (assumed library models)
         self.call_log = []      # optional ghost log of calls (relfile, qualname, args, kwargs)
         self.log_calls = set()
 
@@ -818,6 +819,9 @@ class Interp:
 
     def s_Import(self, s, env):
         for al in s.names:
+            if al.name in self.module_override:
+                env.assign(al.asname or al.name.split(".")[0], self.module_override[al.name])
+                continue
             m = __import__(al.name)
             if al.asname:
                 import importlib
@@ -829,6 +833,11 @@ class Interp:
     def s_ImportFrom(self, s, env):
         import importlib
         pkg = env.globals.get("__package__")
+        if not s.level and s.module in self.module_override:
+            m = self.module_override[s.module]
+            for al in s.names:
+                env.assign(al.asname or al.name, getattr(m, al.name))
+            return
         m = importlib.import_module("." * s.level + (s.module or ""), pkg) if s.level else importlib.import_module(s.module)
         for al in s.names:
             try:
